@@ -605,3 +605,181 @@ def run_subsets(ctx, only=None):
 
 
 STREAMS["subsets"] = run_subsets
+
+
+# ----------------------------------------------------------------------------- (39)/(41) layout x regime minority x size
+
+LAYOUT_SHAPES = [(6, 4), (9, 5), (2, 3, 4), (4, 4, 4)]
+LAYOUT_PATTERNS = ["one", "few", "most"]          # how many items are exactly degenerate: 1, <= 1/8, about 3/4
+LAYOUT_BLOCKS = ["scale", "rotation", "translation", "all"]
+
+
+def _generic_leaf(P, C, g, ty, n, dtype, li):
+    """n generic items (every block away from its special value): rotations 0.4..1.6 rad, translations / points O(1), scales != 1"""
+    D = U.dt(dtype)
+    axes = [(1.0, 0.2, -0.3), (0.3, -0.5, 0.8), (-0.6, 0.64, 0.48), (0.1, 0.6, -0.8), (0.7, 0.7, 0.1)]
+    rows = []
+    for i in range(n):
+        k = i + 5 * li
+        if ty[0] == "G":
+            q = C.quat_of(0.4 + 0.07 * (k % 17), axes[k % 5], neg=(k % 4 == 3))
+            v = ([0.5 + 0.1 * (k % 7), -0.3 - 0.05 * (k % 5), 0.4 + 0.03 * k] if g in ("SE3", "Sim3") else []) + q + \
+                ([1.3 + 0.05 * (k % 9)] if g in ("RxSO3", "Sim3") else [])
+        elif ty[0] == "A":
+            ax = axes[(k + 2) % 5]
+            n_ = math.sqrt(sum(x * x for x in ax))
+            th = 0.2 + 0.03 * (k % 11)
+            v = ([0.2 + 0.02 * (k % 6), -0.15, 0.1 + 0.01 * k] if g in ("SE3", "Sim3") else []) + [th * x / n_ for x in ax] + \
+                ([0.1 + 0.02 * (k % 5)] if g in ("RxSO3", "Sim3") else [])
+            if g == "Sim3":
+                v = [x * 0.6 for x in v]
+        else:
+            v = [1.0 + 0.1 * (k % 5), -0.5 + 0.07 * k, 0.8 - 0.02 * k] + ([1.0 + 0.1 * (k % 3)] if ty[0] == "E4" else [])
+        rows.append(v)
+    return torch.tensor(rows, dtype=torch.float64).to(D)
+
+
+def _degenerate(t, g, ty, block, idx, jinvp_x=False):
+    """make the items idx exactly degenerate in one block (in place on a copy)"""
+    t = t.clone()
+    tr = g in ("SE3", "Sim3")
+    sc = g in ("RxSO3", "Sim3")
+    for i in idx:
+        if ty[0] == "G":
+            o = 3 if tr else 0
+            if block in ("rotation", "all") and not jinvp_x:
+                t[i, o:o + 4] = torch.tensor([0.0, 0.0, 0.0, 1.0], dtype=t.dtype)
+            if block in ("scale", "all") and sc:
+                t[i, -1] = 1.0
+            if block in ("translation", "all") and tr:
+                t[i, :3] = 0.0
+        elif ty[0] == "A":
+            o = 3 if tr else 0
+            if block in ("rotation", "all"):
+                t[i, o:o + 3] = 0.0
+            if block in ("scale", "all") and sc:
+                t[i, -1] = 0.0
+            if block in ("translation", "all") and tr:
+                t[i, :3] = 0.0
+        elif block in ("translation", "all"):
+            t[i, :3] = 0.0
+    return t
+
+
+def permuted(t, shape):
+    """the logical tensor `t.reshape(shape + (d,))` stored with its batch dimensions in REVERSED order (permuted strides)"""
+    nb = len(shape)
+    x = t.reshape(tuple(shape) + t.shape[-1:])
+    rev = list(range(nb - 1, -1, -1)) + [nb]
+    y = x.permute(rev).contiguous().permute(rev)
+    assert tuple(y.shape) == tuple(x.shape) and not y.is_contiguous()
+    return y
+
+
+def run_layout(ctx, only=None):
+    """batches of 24..64 items in 2-D / 3-D batch shapes with permuted strides, in which one / a few (<= 1/8) / most items are exactly
+    degenerate in one block and the rest generic — every Function family of every group, values and gradients: against the same call
+    on the contiguous copy, the degenerate and some generic items against the call on that item alone, and the Lean model on them"""
+    P = U.pp()
+    C = _c04()
+    samples = []
+    for gi, g in enumerate(GROUPS):
+        for fi, (name, node, ltypes) in enumerate(H4.families(g)):
+            if only is not None and only != (g, name):
+                continue
+            combos = [(s_, p_, b_) for s_ in range(4) for p_ in range(3) for b_ in range(4)]
+            if ctx.quick:      # quick: two combinations per entry point, both with a degenerate MINORITY (one item / <= 1/8 of the items):
+                # the scale block where the group has one (else the rotation block), then the rotation (else translation / all) block
+                has_s = g in ("RxSO3", "Sim3")
+                combos = [((fi + gi) % 4, (fi + gi) % 2, 0 if has_s else 1),
+                          ((fi + gi + 1) % 4, (fi + gi + 1) % 2, 1 if has_s else (2 if g == "SE3" else 3))]
+            for si, pi, bi in combos:
+                shape, pat, block = LAYOUT_SHAPES[si], LAYOUT_PATTERNS[pi], LAYOUT_BLOCKS[bi]
+                for dtype in (("float64",) if ctx.quick else ("float64", "float32")):
+                    n = int(math.prod(shape))
+                    k = 1 if pat == "one" else (max(2, n // 8) if pat == "few" else (3 * n) // 4)
+                    idx = sorted({(7 * j + 4 + fi) % n for j in range(k)})
+                    case = {"stream": "layout", "type": g, "read": name, "dtype": dtype, "shape": list(shape), "degenerate": pat, "block": block,
+                            "items": idx[:8]}
+                    try:
+                        flat = [_degenerate(_generic_leaf(P, C, g, ty, n, dtype, li), g, ty, block, idx, jinvp_x=(name == "Jinvp" and li == 0))
+                                for li, ty in enumerate(ltypes)]
+                        perm = [permuted(t, shape) for t in flat]
+                        out, gs, cot = H4.run_node(P, C, node, ltypes, perm)
+                        ctx.count("layout.calls")
+                        ctx.note_case(("layout", g, name, dtype, shape, pat, block), True)
+                        od = out.shape[-1]
+                        of, cf = out.reshape(n, od), cot.reshape(n, od)
+                        gf = [None if x is None else x.reshape(n, x.shape[-1]) for x in gs]
+                        if not bool(torch.isfinite(of).all()) or any(x is not None and not bool(torch.isfinite(x).all()) for x in gf):
+                            ctx.fail(case, f"layout: non-finite value / gradient of {name} on {g}, batch {shape} with permuted strides ({dtype})")
+                            continue
+                        # the same data, contiguous
+                        oc, gc, _ = H4.run_node(P, C, node, ltypes, [t.reshape(tuple(shape) + t.shape[-1:]) for t in flat], cf.reshape(cot.shape))
+                        gcf = [None if x is None else x.reshape(n, x.shape[-1]) for x in gc]
+                        if not H4.rows_close(of, oc.reshape(n, od), dtype) or not all(H4.rows_close(x, y, dtype) for x, y in zip(gf, gcf)):
+                            bad = [i for i in range(n) if not H4.rows_close(of[i:i + 1], oc.reshape(n, od)[i:i + 1], dtype) or
+                                   not all(H4.rows_close(None if x is None else x[i:i + 1], None if y is None else y[i:i + 1], dtype) for x, y in zip(gf, gcf))]
+                            ctx.fail(dict(case, bad_items=bad[:8], values=[t[bad[0]].tolist() for t in flat] if bad else None),
+                                     f"layout: {name} on {g}, batch {shape} with permuted strides, {pat} item(s) exactly degenerate in the {block} block: items "
+                                     f"{bad[:8]} differ from the same call on the contiguous copy ({dtype})")
+                            continue
+                        # degenerate items and some generic ones against the call on that item alone
+                        gen = [i for i in range(n) if i not in idx]
+                        picks = idx[:3] + gen[:2] + gen[-1:]
+                        for i in picks:
+                            o1, g1, _ = H4.run_node(P, C, node, ltypes, [t[i:i + 1].clone() for t in flat], cf[i:i + 1])
+                            if not H4.rows_close(of[i:i + 1], o1, dtype) or not all(H4.rows_close(None if x is None else x[i:i + 1], y, dtype) for x, y in zip(gf, g1)):
+                                ctx.fail(dict(case, item=i, values=[t[i].tolist() for t in flat]),
+                                         f"layout: item {i} ({'degenerate' if i in idx else 'generic'}) of {name} on {g}, batch {shape} with permuted strides, "
+                                         f"{pat} degenerate in the {block} block: value / gradient differs from the call on that item alone ({dtype})")
+                                break
+                        if dtype == "float64" and not (ctx.quick and (si, pi, bi) != combos[0]):
+                            smp = [idx[0], gen[0] if gen else idx[-1], idx[-1]]
+                            c3 = {"stream": "layout", "prog": C.to_json(node), "ltypes": [list(t) for t in ltypes], "dtype": dtype,
+                                  "lshapes": [[3] for _ in ltypes], "bshape": [3], "root": list(C.node_type(node, ltypes)),
+                                  "values": [t[smp].tolist() for t in flat], "cot": cf[smp].tolist(), "tags": ["layout"] * len(ltypes),
+                                  "sample": smp, "shape": list(shape), "degenerate": pat, "block": block, "fd": False}
+                            samples.append((c3, of[smp].clone(), [None if x is None else x[smp].clone() for x in gf]))
+                    except Exception as e:
+                        ctx.fail(case, f"raises: {name} on {g}, batch {shape} with permuted strides ({dtype}) raised {type(e).__name__}: {str(e)[:140]}")
+    # the model on the sampled rows of the permuted batches (value and gradient)
+    todo = []
+    for c3, o3, g3 in samples:
+        try:
+            r = C.run_case_impl(c3)
+            r.band, r.trunc = C.site_info(c3, r)
+        except Exception as e:
+            ctx.fail(c3, f"raises: sample of a permuted batch: {type(e).__name__}: {str(e)[:120]}")
+            continue
+        r.out = o3.double()
+        r.grads = [None if x is None else x.double() for x in g3]
+        todo.append((c3, r))
+    lines, spans = [], []
+    for c3, r in todo:
+        ls, index = C.model_lines(c3, common.EPS[c3["dtype"]], want_fd=False)
+        spans.append((len(lines), len(ls), index))
+        lines += ls
+    reps = C.run_driver_parallel(ctx, lines) if lines else []
+    for (c3, r), (o, k, index) in zip(todo, spans):
+        M = C.collect_model(c3, reps[o:o + k], index)
+        A = C.assess(c3, r, M) if False else None
+        bad, _ = C.compare_grads(c3, r, M, r.band)
+        ctx.count("layout.model-samples")
+        tf = 4 * math.sqrt(common.EPS[c3["dtype"]])
+        fb = None
+        for b in range(3):
+            e = C.nmax(abs(x - y) for x, y in zip(r.out[b].tolist(), M["eval"][b]))
+            if not (e <= tf * max(1.0, max((abs(v) for v in M["eval"][b]), default=0.0))):
+                fb = (b, e)
+        ps = C.prog_str(C.from_json(c3["prog"]))
+        if fb:
+            ctx.fail(c3, f"layout: value of {ps} for item {c3['sample'][fb[0]]} of a batch {c3['shape']} with permuted strides ({c3['degenerate']} degenerate "
+                         f"in the {c3['block']} block) differs from the model by {fb[1]:.3e}")
+        elif bad:
+            li, i, err, t = bad[0]
+            ctx.disagree("layout.model", c3, f"layout: gradient of leaf {li} of {ps} for item {c3['sample'][i]} of a permuted batch {c3['shape']} differs from "
+                                             f"the model's reverse sweep by {err:.3e} > {t:.3e}")
+
+
+STREAMS["layout"] = run_layout
